@@ -1,4 +1,5 @@
 import Skc.Model.Agg
+import Skc.Model.Electre
 /-! # L-model: `SKCDecisionMakerABC.evaluate` end to end for the closed-form ranking methods
 `data = dm.to_dict()` → the domain guards of `_evaluate_data` → the kernel → `rank_values` →
 `_make_result(alternatives=data["alternatives"], values=rank, extra={score …})` → `RankResult`
@@ -87,6 +88,24 @@ def evaluateQ [NeZero m] [NeZero n] (meth : MethodQ) (alts : List String)
   else
     let s := scoreOfQ meth A o w
     .ok { alts := alts, rank := rankValues meth.rev (Vec.toList s), score := s }
+end
+
+
+/-! ### ELECTRE1 end to end: a `KernelResult` (one boolean per alternative) with the relation it reports -/
+structure KernelOut (m : Nat) where
+  alts : List String
+  kernel : Vec m Bool
+  outrank : Mat m m Bool
+
+section
+open Skc.Electre
+variable {α : Type} [Add α] [Sub α] [Mul α] [Div α] [Neg α] [OfNat α 0] [OfNat α 1] [LT α] [LE α] [Max α] [Min α]
+  [DecidableEq α] [DecidableRel (α := α) (· < ·)] [DecidableRel (α := α) (· ≤ ·)]
+variable {m n : Nat}
+
+def evaluateElectre1 [NeZero m] [NeZero n] (alts : List String) (A : Mat m n α) (o : Vec n Obj) (w : Vec n α) (p q : α) :
+    KernelOut m :=
+  { alts := alts, kernel := electre1Kernel A o w p q, outrank := electre1Outrank A o w p q }
 end
 
 end Skc.Eval
